@@ -266,7 +266,14 @@ def _clen(ctx, prop):
         return []
     r, n = clenshaw.rule_CLEN(ctx, CLEN_PARTS[prop])
     r.floor('summation x length cases', n, 15)
-    return [r]
+    out = [r]
+    if prop in ('C01', 'C03', 'C12'):
+        from .rules import unitvec
+        u, npth, nchk = unitvec.rule_UNIT(ctx)
+        u.floor('paths of the two GenPosition bodies', npth, 100)
+        u.floor('unit identities checked', nchk, 100)
+        out.append(u)
+    return out
 
 
 def _symm(ctx, prop):
